@@ -156,7 +156,8 @@ Definition resolve_post {X} (l : list (Z * X)) : list event :=
 
 (** ---- one request ---- *)
 (** what a Prepare extension answers: the body (status 200) and the server cache preference
-    (0 [ServerCachePreference::None], 1 [Full], 2 [QueryMatters]) *)
+    (0 [ServerCachePreference::None], 1 [Full], 2 [QueryMatters]); 3: the answer carries a [future]
+    ([FatResponse::with_future], a streamed body of unknown length) that writes [STREAM_TAIL] after the body *)
 Record presp : Type := { pr_body : bytes; pr_pref : N }.
 Definition handler := bytes -> presp.          (* request URI -> response *)
 
@@ -252,8 +253,15 @@ Definition apply_range (s : san) (sb : N * bytes) : N * bytes :=
   end.
 (** what the client reads: no body after HEAD *)
 Definition client_view (method : N) (sb : N * bytes) : N * bytes := (fst sb, if method =? 1 then [] else snd sb).
-Definition send (b : behaviours) (method : N) (s : san) (sb : N * bytes) : (N * bytes) * list event :=
-  (client_view method (apply_range s sb), resolve_package (b_package b) ++ resolve_post (b_post b)).
+(** a response with a [future]: no range is applied ([is_stream]), the future writes after the body — not
+    for HEAD —, then the Post extensions run; such a response is never cached *)
+Definition STREAM_TAIL : bytes := Eval vm_compute in B "+streamed".
+Definition is_stream (pref : N) : bool := pref =? 3.
+Definition respond (method : N) (s : san) (pref : N) (sb : N * bytes) : N * bytes :=
+  if is_stream pref then client_view method (fst sb, snd sb ++ STREAM_TAIL)
+  else client_view method (apply_range s sb).
+Definition send (b : behaviours) (method : N) (s : san) (pref : N) (sb : N * bytes) : (N * bytes) * list event :=
+  (respond method s pref sb, resolve_package (b_package b) ++ resolve_post (b_post b)).
 
 (** the cache look-up and the decision to store of [handle_cache] / [maybe_cache]; [st]: request URI
     and override URI after the Prime extensions *)
@@ -271,7 +279,7 @@ Definition cache_hit (h : hostcfg) (c : cache) (s : san) (method : N) (kuri : by
   | _, _ => None
   end.
 Definition cache_store (h : hostcfg) (c : cache) (method : N) (kuri : bytes) (pref status : N) (body : bytes) : cache :=
-  if h_cache h && negb (pref =? 0) && is_get_head method && cacheable_status status
+  if h_cache h && negb (pref =? 0) && negb (is_stream pref) && is_get_head method && cacheable_status status
   then cput (if pref =? 2 then KPQ (uri_path kuri) (uri_query kuri) else KPath (uri_path kuri)) (status, body) c
   else c.
 
@@ -284,7 +292,7 @@ Definition serve (parse : bytes -> outcome (option parsed)) (h : hostcfg) (c : c
   let '(st, tr1) := resolve_prime (b_prime b) (q_uri r, None) in
   match cache_hit h c s (q_method r) (key_uri st) with
   | Some sb =>
-      let '(reply, tr4) := send b (q_method r) s sb in
+      let '(reply, tr4) := send b (q_method r) s 1 sb in
       ((Ok reply, tr1 ++ tr4), c)
   | None =>
       let '((status, body, pref), tr2) :=
@@ -297,7 +305,7 @@ Definition serve (parse : bytes -> outcome (option parsed)) (h : hostcfg) (c : c
       | Panic => ((Panic, tr1 ++ tr2), c)
       | Err e => ((Err e, tr1 ++ tr2), c)
       | Ok (body', tr3) =>
-          let '(reply, tr4) := send b (q_method r) s (status, body') in
+          let '(reply, tr4) := send b (q_method r) s pref (status, body') in
           ((Ok reply, tr1 ++ tr2 ++ tr3 ++ tr4), cache_store h c (q_method r) (key_uri st) pref status body')
       end
   end.
@@ -435,7 +443,7 @@ Definition d_payload (x : xval) : option payload :=
   match x with
   | XL [XN 0; XB f; XB t] => Some (PPrime f t)
   | XL [XN 1; XB p; XB b] => Some (PPrepareFn p b 0)
-  | XL [XN 1; XB p; XB b; XN pref] => if pref <? 3 then Some (PPrepareFn p b pref) else None
+  | XL [XN 1; XB p; XB b; XN pref] => if pref <? 4 then Some (PPrepareFn p b pref) else None
   | XL [XN 2; XB p] => Some (PPresentFn p)
   | XL [XN 3] => Some PMark
   | _ => None
@@ -443,7 +451,7 @@ Definition d_payload (x : xval) : option payload :=
 Definition mk_pedit (k c : N) (p : xval) (key : bytes) (pl : xval) (body : bytes) (pref : N) : option pedit :=
   match d_Z p, d_payload pl with
   | Some p, Some pl =>
-      if (k <? 8) && (c <? 3) && (pref <? 3) then
+      if (k <? 8) && (c <? 3) && (pref <? 4) then
         Some {| pe_kind := N.to_nat k; pe_code := c; pe_prio := p; pe_key := key; pe_payload := pl; pe_body := body; pe_pref := pref |}
       else None
   | _, _ => None
